@@ -26,6 +26,23 @@ def alphabet(seed: int, n: int = 3, scaled: bool = True):
     return tuple(float(v) * s for v in a)
 
 
+def level_ties(alpha, ihmaxes):
+    """(lo, mid, hi, ihmax) combinations of alphabet values for which `mid` sits exactly on a rounding boundary of the watershed
+    level discretisation of a spectrum with extremes lo, hi. Such spectra are don't-care for the partition checks, so an alphabet
+    with many of them empties the product it is used in (this happened with a fourth value of 6.0, see DESIGN 11.4)."""
+    import math
+    out = []
+    vals = sorted(set(float(a) for a in alpha))
+    for lo, hi in itertools.combinations(vals, 2):
+        for m in vals:
+            if lo < m < hi:
+                for ih in ihmaxes:
+                    q = (hi - m) * (ih - 1.0) / (hi - lo)
+                    if abs(q - math.floor(q) - 0.5) < 1e-5:
+                        out.append((lo, m, hi, ih))
+    return out
+
+
 def product_array(cells: int, alpha) -> np.ndarray:
     """All len(alpha)**cells assignments, lexicographic (all-first-symbol first). shape (N, cells)."""
     k = len(alpha)
